@@ -10,7 +10,7 @@ from leaspy.io.data.dataset import Dataset
 
 
 def cohort(rng, n_ind=None, n_feat=None, max_visits=8, missing="mcar", events=False, one_visit_ok=True,
-           binary=False, id_style="str"):
+           binary=False, id_style="str", subpops=1, subpop_gap=14.0):
     """A synthetic cohort table following a noisy logistic progression.  IDs are zero-padded & sorted."""
     n_ind = int(n_ind if n_ind is not None else rng.integers(3, 13))
     n_feat = int(n_feat if n_feat is not None else rng.integers(1, 5))
@@ -20,7 +20,7 @@ def cohort(rng, n_ind=None, n_feat=None, max_visits=8, missing="mcar", events=Fa
     v0 = np.exp(rng.normal(-3.0, 0.4, size=n_feat))
     for i in range(n_ind):
         nv = int(rng.integers(1 if (one_visit_ok and i >= 2) else 2, max_visits + 1))
-        tau = t0 + rng.normal(0, 6)
+        tau = t0 + rng.normal(0, 6) + (float(subpop_gap) * (i * subpops // n_ind) if subpops > 1 else 0.0)  # sub-populations by blocks of IDs
         xi = rng.normal(0, 0.5)
         start = tau + rng.normal(-4, 5)
         gaps = rng.uniform(0.3, 2.0, size=nv)
